@@ -12,8 +12,9 @@ import (
 )
 
 // Value is the canonical, representation-independent form of a YANG value:
-//   i8:-5 i16: i32: i64: u8: u16: u32: u64:  dec:<shortest decimal>  str:<text>  bin:<hex>
-//   bool:true  empty  enum:<NAME>  enum#<int> (undefined member)  ll:[<q1>,<q2>]
+//
+//	i8:-5 i16: i32: i64: u8: u16: u32: u64:  dec:<shortest decimal>  str:<text>  bin:<hex>
+//	bool:true  empty  enum:<NAME>  enum#<int> (undefined member)  ll:[<q1>,<q2>]
 type Value string
 
 // NoValue is the absent value.
